@@ -36,6 +36,61 @@ type caseSpec struct {
 	Requests     []reqSpec           `json:"-"`
 	Faults       map[int][]faultSpec `json:"-"`
 	NFaults      int                 `json:"n_faults"`
+	// Directed is non-empty for a scripted history (see runDirected); the
+	// requests are then W1 (first NW1) and W2 (the rest).
+	Directed string `json:"directed,omitempty"`
+	NW1      int    `json:"n_w1,omitempty"`
+	Pick     int    `json:"follower_pick,omitempty"`
+}
+
+// nRandom is the number of random histories per tier; cases from nRandom on
+// are directed histories.
+func nRandom(c *vf.Ctx) int   { return c.N(3, 32) }
+func nDirected(c *vf.Ctx) int { return c.N(1, 4) }
+
+// caseFor returns the case description for a case number.
+func caseFor(c *vf.Ctx, caseNo int) caseSpec {
+	if caseNo >= nRandom(c) {
+		return genDirected(c, caseNo)
+	}
+	return genCase(c, caseNo)
+}
+
+// genDirected: changes captured on a follower while they are still inside the
+// batching window, a snapshot on that follower, an immediate restart of it,
+// the endpoint down for the old leader, leadership moved to the restarted
+// node, endpoint back. The statements are drawn like everywhere else.
+func genDirected(c *vf.Ctx, caseNo int) caseSpec {
+	r := c.Rand(uint64(caseNo))
+	cs := caseSpec{Case: caseNo, Faults: map[int][]faultSpec{}, Directed: "follower-snapshot-restart-then-leader"}
+	if caseNo%2 == 1 {
+		cs.Filter = filterRe
+	}
+	cs.BatchSz = 100
+	cs.BatchDelayMs = 8000
+	cs.HWMms = 100
+	cs.EPSeed = r.Uint64()
+	cs.NW1 = 4 + r.IntN(4)
+	cs.NReqs = cs.NW1 + 3
+	cs.Pick = r.IntN(2)
+	g := &gen{r: r, nextK: 1000}
+	for i := 0; i < cs.NReqs; i++ {
+		rq := reqSpec{No: i, Node: -1, SleepMs: 5}
+		rq.Tx = r.IntN(10) < 4
+		for j := 0; j < 1+r.IntN(3); j++ {
+			s, k := g.stmt(i)
+			if strings.HasPrefix(k, "ddl") {
+				s, k = fmt.Sprintf("INSERT INTO t(k,v,n) VALUES(%d,'%s',%d)", g.freshK(), g.tok(), r.IntN(4)), "insert1"
+			}
+			rq.Stmts = append(rq.Stmts, s)
+			rq.Kinds = append(rq.Kinds, k)
+		}
+		if i == 0 { // the first W1 request certainly changes rows
+			rq.Stmts[0], rq.Kinds[0] = fmt.Sprintf("INSERT INTO t(k,v,n) VALUES(%d,'%s',1)", g.freshK(), g.tok()), "insert1"
+		}
+		cs.Requests = append(cs.Requests, rq)
+	}
+	return cs
 }
 
 const filterRe = `^(t|u|x[0-9]+)$`
